@@ -36,6 +36,34 @@ var c12Hostile = []string{
 	"*2\r\n$3\r\nget\r\n:1\r\n", "*2\r\n$3\r\nget\r\n+a\r\n", "*1\r\n*1\r\n$4\r\nPING\r\n", "$4\r\nPING\r\n", "+PING\r\n", "-ERR\r\n", ":1\r\n",
 	"PING\r\n", "GET a\r\n", "get \"unbalanced\r\n", "QUIT\r\n", "\x00\x00\x00\x00\r\n", "GET / HTTP/1.1\r\nHost: x\r\n\r\n", "*1\r\n$4\r\n\xff\xfe\xfd\xfc\r\n",
 	"*3\r\n$3\r\nset\r\n$1\r\na\r\n", "*2\r\n$3\r\nget\r\n$1\r\n", "*", "*1", "*1\r", "*2\r\n$", "*2\r\n$3\r\nge",
+	"*2\r\n$3\r\nget\r\n$-0\r\n\r\n", "*2\r\n$3\r\nget\r\n$-00\r\n\r\n", "*3\r\n$3\r\nset\r\n$1\r\nk\r\n$-0\r\n\r\n", "*-0\r\n", "*2\r\n$-0\r\n\r\n$1\r\na\r\n", "*2\r\n$3\r\nget\r\n$+0\r\n\r\n", "*2\r\n$3\r\nget\r\n$00\r\n\r\n",
+}
+
+// c12NastyNumbers are strings put where a count or a length belongs.
+var c12NastyNumbers = []string{"-0", "-00", "+0", "00", "000", "01", "-01", "+1", "-1", "-2", " 1", "1 ", "\t1", "0x1", "0X10", "1e1", "1.0", "1_0", "",
+	"-", "+", "--1", "4294967296", "4294967297", "2147483648", "9223372036854775807", "9223372036854775808", "-9223372036854775808",
+	"18446744073709551616", "18446744073709551617", "99999999999999999999", "1048576", "1048577", "536870912", "536870913", "\xd9\xa1", "1\x00", "\x001"}
+
+// c12NumberSwap replaces one count or length field of a valid request by a nasty number.
+func c12NumberSwap(t *rapid.T, v []byte) []byte {
+	var fields [][2]int // start, end of each number after '*' or '$'
+	for i := 0; i < len(v); i++ {
+		if (v[i] == '*' || v[i] == '$') && (i == 0 || v[i-1] == '\n') {
+			j := i + 1
+			for j < len(v) && v[j] != '\r' {
+				j++
+			}
+			fields = append(fields, [2]int{i + 1, j})
+		}
+	}
+	if len(fields) == 0 {
+		return v
+	}
+	f := fields[rapid.IntRange(0, len(fields)-1).Draw(t, "field")]
+	n := rapid.SampledFrom(c12NastyNumbers).Draw(t, "nasty")
+	out := append([]byte{}, v[:f[0]]...)
+	out = append(out, n...)
+	return append(out, v[f[1]:]...)
 }
 
 func c12ValidReq(t *rapid.T, i int) []byte {
@@ -57,7 +85,9 @@ func c12Gen(t *rapid.T) c12Case {
 	for i := 0; i < nvalid; i++ {
 		stream = append(stream, c12ValidReq(t, i)...)
 	}
-	switch rapid.IntRange(0, 5).Draw(t, "offence") {
+	switch rapid.IntRange(0, 6).Draw(t, "offence") {
+	case 6:
+		stream = append(stream, c12NumberSwap(t, c12ValidReq(t, 98))...)
 	case 0, 1:
 		stream = append(stream, rapid.SampledFrom(c12Hostile).Draw(t, "hostile")...)
 	case 2:
